@@ -1382,7 +1382,7 @@ func (w *world) execNest(r *hx.Run, f []string) string {
 	}
 	for _, sg := range segs[1:] {
 		bl, breq := laneSplit(sg)
-		if bl == aLane || !(isSeqOp(breq) || (len(breq) == 1 && breq[0] == "mark")) {
+		if bl == aLane || !(isSeqOp(breq) || (len(breq) == 1 && breq[0] == "mark") || (len(breq) == 2 && breq[0] == "foreign")) {
 			return "bad-op"
 		}
 	}
@@ -1477,6 +1477,23 @@ func (w *world) execParm(r *hx.Run, f []string) string {
 	ans := make([]string, len(live))
 	hung := make([]bool, len(live))
 	var wg sync.WaitGroup
+	// another user of the store writes, deletes (also by prefix, in batches) and iterates other keys and realms meanwhile
+	stopFr := make(chan struct{})
+	var frwg sync.WaitGroup
+	frwg.Add(1)
+	go func() {
+		defer panicFinding(r, "parm")
+		defer frwg.Done()
+		for round := 0; ; round++ {
+			select {
+			case <-stopFr:
+				return
+			default:
+			}
+			w.foreign([]string{"own", "batch", "iter", "sib", "parent"}[round%5], round)
+			runtime.Gosched()
+		}
+	}()
 	for i, c := range live {
 		wg.Add(1)
 		go func(i int, c *world) {
@@ -1485,6 +1502,8 @@ func (w *world) execParm(r *hx.Run, f []string) string {
 		}(i, c)
 	}
 	wg.Wait()
+	close(stopFr)
+	frwg.Wait()
 	w.slow.Store(false)
 	for i, c := range live {
 		if hung[i] {
@@ -1844,7 +1863,8 @@ func genCase(rng *hx.Rng, n int) []string {
 			if b == a {
 				b = (a + 1) % nl
 			}
-			bop := hx.Pick(rng, []string{"next", "next", "release", "release", "next", fmt.Sprintf("new %d", hx.Pick(rng, intervals)), "crash write", "mark", "fnext set"})
+			bop := hx.Pick(rng, []string{"next", "next", "release", "release", "next", fmt.Sprintf("new %d", hx.Pick(rng, intervals)), "crash write", "mark", "fnext set",
+				"foreign " + hx.Pick(rng, []string{"own", "batch", "sib", "parent", "iter"})})
 			if bop == "crash write" {
 				crashed = append(crashed, b)
 			}
